@@ -62,7 +62,13 @@ def components(tier):
                     with quiet():
                         C = enc(torch.from_numpy(M)).numpy()
                     if soft:
-                        return ((1 - 2 * C) * rng.uniform(0.5, 4.0, size=C.shape)).astype(np.float32)
+                        L = ((1 - 2 * C) * rng.uniform(0.5, 4.0, size=C.shape)).astype(np.float32)
+                        # planted: one weak wrong-sign position in most rows (row 1 stays clean) so that the correcting path runs
+                        for r in range(rows):
+                            if r != 1:
+                                p_ = rng.randint(0, n)
+                                L[r, p_] = -np.sign(L[r, p_]) * 0.05 * (1 + r)
+                        return L
                     # planted: rows with 1..t errors at seeded positions among zero-syndrome rows (row 1 stays clean)
                     if t:
                         for r in range(rows):
